@@ -232,7 +232,7 @@ def c15_r6(ctx):
     b = repo.func("client_generators.client:ClientGenerator._generate_operation_str_assign")
 
     def elt(fi, var_hint):
-        comps = [n for n in walk_no_nested(fi.node) if isinstance(n, ast.ListComp) and "splitlines()" in norm(n.generators[0].iter)]
+        comps = [n for n in walk_no_nested(fi.node) if isinstance(n, (ast.ListComp, ast.GeneratorExp)) and "splitlines()" in norm(n.generators[0].iter)]
         if len(comps) != 1:
             raise AnalysisError(f"{fi.key}: line-splitting comprehension not found")
         c = comps[0]
@@ -246,7 +246,7 @@ def c15_r6(ctx):
     ea, srca, ifa = elt(a, "gql")
     eb, srcb, ifb = elt(b, "operation_str")
     ctx.check(ea == eb and ifa == ifb == [], key(a, "line constants"), f"operations module builds lines as {ea} {ifa}, the client as {eb} {ifb}", a.loc(), okmsg=f"both emit {ea} per line, unfiltered")
-    comp = [n for n in walk_no_nested(a.node) if isinstance(n, ast.ListComp) and norm(n.generators[0].iter) == "self._operations_gqls.items()"]
+    comp = [n for n in walk_no_nested(a.node) if isinstance(n, (ast.ListComp, ast.GeneratorExp)) and norm(n.generators[0].iter) == "self._operations_gqls.items()"]
     good = len(comp) == 1 and "targets=[self._operations_variables[name]]" in norm(comp[0].elt)
     ctx.check(good, key(a, "one constant per operation"), "not every stored operation string gets its module constant", a.loc(), okmsg="one module constant per stored operation")
 
